@@ -175,6 +175,61 @@ def solve_with_truth(e, pins, extra=(), timeout=20000, rounds=8):
     return None
 
 
+def equality_obligation(prog, ck):
+    """real (*fiat.SM2Element).Equal and IsZero: with Bytes() replaced by 32 arbitrary bytes per receiver (its
+    contract: the canonical encoding, proved separately), the result is 1 exactly when the two encodings agree in all 32
+    bytes (IsZero: when all 32 are zero) and 0 otherwise.  Returns (verdict, detail, witness (a, b) or None)."""
+    FIAT = MOD + '/sm2/internal/fiat'
+    eng = new_engine(prog, timeout_ms=60000)
+    cur = {}
+
+    def fake_bytes(e, a, ins):
+        if getattr(e, 'in_init', False):
+            return e.new_slice([0] * 32)          # sm2ZeroEncoding = encoding of the zero element
+        recv = a[0]
+        return e.new_slice(list(cur.get(recv.obj, cur.get('other'))))
+    eng.intercepts['(*%s.SM2Element).Bytes' % FIAT] = fake_bytes
+    bad = []
+
+    def run_eq(e):
+        av, bv_ = sym_bytes(e, 'a', 32), sym_bytes(e, 'b', 32)
+        o1 = e.new_obj([[0, 0, 0, 0]], FIAT + '.SM2Element')
+        o2 = e.new_obj([[0, 0, 0, 0]], FIAT + '.SM2Element')
+        cur.clear(); cur[o1] = av; cur[o2] = bv_; cur['other'] = bv_
+        e.assume(z3.And(z3.ULT(bytes_to_bv(av), z3.BitVecVal(P, 256)), z3.ULT(bytes_to_bv(bv_), z3.BitVecVal(P, 256))))
+        out = e.call_outcome('(*%s.SM2Element).Equal' % FIAT, [Ptr(o1, ()), Ptr(o2, ())])
+        if out.kind != 'return':
+            return ('cex', 'Equal panics: ' + out.panic.msg, None, av, bv_)
+        r = tobv(out.values[0] if isinstance(out.values, (list, tuple)) else out.values, 64)
+        A, B = bytes_to_bv(av), bytes_to_bv(bv_)
+        pr = e.prove(z3.And(z3.Or(r == 0, r == 1), (r == 1) == (A == B)))
+        return (pr[0], 'Equal is not "all 32 bytes of the canonical encodings agree"', pr[1], av, bv_)
+
+    def run_zero(e):
+        av = sym_bytes(e, 'a', 32)
+        o1 = e.new_obj([[0, 0, 0, 0]], FIAT + '.SM2Element')
+        cur.clear(); cur[o1] = av; cur['other'] = av
+        e.assume(z3.ULT(bytes_to_bv(av), z3.BitVecVal(P, 256)))
+        out = e.call_outcome('(*%s.SM2Element).IsZero' % FIAT, [Ptr(o1, ())])
+        if out.kind != 'return':
+            return ('cex', 'IsZero panics: ' + out.panic.msg, None, av, [0] * 32)
+        r = tobv(out.values[0] if isinstance(out.values, (list, tuple)) else out.values, 64)
+        A = bytes_to_bv(av)
+        pr = e.prove(z3.And(z3.Or(r == 0, r == 1), (r == 1) == (A == 0)))
+        return (pr[0], 'IsZero is not "all 32 bytes of the canonical encoding are zero"', pr[1], av, [0] * 32)
+    for fn in (run_eq, run_zero):
+        for r in eng.explore(fn):
+            if r[0] != 'proved':
+                bad.append(r)
+    ck.absorb(eng)
+    if not bad:
+        return True, 'Equal == 1 <=> the 32-byte encodings agree; IsZero == 1 <=> the encoding is all zero (all 2^512 / 2^256 byte strings)', None
+    for b in bad:
+        if b[0] == 'cex' and b[2] is not None:
+            return 'cex', b[1], (model_bytes(b[2], b[3]), model_bytes(b[2], b[4]))
+    return ('cex' if any(b[0] == 'cex' for b in bad) else 'unknown'), bad[0][1], None
+
+
 def setbytes_obligation(prog, ck, T, M, pre):
     """real (*fiat.T).SetBytes on bit-vectors: accepts exactly the 32-byte encodings of values < M and hands the
     decoded value to the Montgomery conversion; other lengths are refused.  Returns (verdict, detail)."""
